@@ -66,7 +66,8 @@ def request_path_contracts(reg):
     UP_FRESH = ('not isnone(self.upstream) and len(self.upstream.buffer) == 0 and self.upstream._num_buffer == 0 '
                 'and not self.upstream.closed and not isnone(self.upstream._conn)')
     reg.contract(SV, 'HttpProxyPlugin.connect_upstream', self_cls='HttpProxyPlugin', assumed=True,
-                 modifies=['self.upstream'], raise_modifies=['self.upstream'], ghost_init={'connects': 'int'},
+                 modifies=['self.upstream'], raise_modifies=['self.upstream', 'self.client.buffer', 'self.client._num_buffer'],
+                 ghost_init={'connects': 'int'},
                  ensures=['connects == old(connects) + 1', UP_FRESH],
                  raises={'proxy.http.exception.HttpProtocolException': ['connects == old(connects) + 1']},
                  note='opens the upstream connection (C14); ghost connects counts attempts')
